@@ -25,6 +25,8 @@ EPS6 = 1e-6
 
 # arms that exist per modelled function (tags of Model/DistPrim.v); "reachable" in domain P:
 # arms only taken for degenerate (out-of-domain) inputs are listed separately and not counted as holes
+_LB = ([100, 200, 400] + [100 * p + 10 * a + b for p in (3, 5, 6) for a in (1, 2, 3, 4) for b in (0, 1, 2)]
+       + [700 + 20 * s + l for s in range(4) for l in range(1, 11) if (s, l) not in ((1, 5), (1, 9), (3, 3), (3, 7))])
 ARMS = {
     "point_to_line": [0], "point_to_line_segment": [0], "point_to_plane": [0],
     "point_to_triangle": [1, 2, 3, 4, 5, 6, 7],
@@ -42,14 +44,19 @@ ARMS = {
     "plane_to_ellipsoid": [0, 1], "plane_to_cylinder": [0, 1],
     # iterative functions (Model/DistPrimIter.v): the tag is an iteration count, not an arm (None = not tracked)
     "point_to_ellipsoid": None, "disk_to_disk": None,
+    # Eberly's line/box case tree (Model/DistPrimBox.v): tag = 100 * direction pattern + leaf; circle (DistPrimCircle.v)
+    "line_to_box": _LB, "line_segment_to_box": None,
+    "line_to_circle": None, "line_segment_to_circle": None,
 }
 OUT_OF_DOMAIN_ARMS = {
     "line_to_line_segment": [0, 1, 2], "line_segment_to_line_segment": [0, 1, 2],
+    # 0 = zero direction; 725 729 763 767 are unreachable in exact arithmetic (the implementation never reaches them either)
+    "line_to_box": [0, 725, 729, 763, 767],
 }
 MODELLED = list(ARMS)
 
 HEADER = """From Coq Require Import List PrimFloat.
-From D3 Require Import Base.Ops Base.Vec Model.DistPrimRun Model.DistPrimCombRun Model.DistPrimIterRun.
+From D3 Require Import Base.Ops Base.Vec Model.DistPrimRun Model.DistPrimCombRun Model.DistPrimIterRun Model.DistPrimBoxRun.
 Import ListNotations.
 Open Scope float_scope.
 """
